@@ -40,3 +40,8 @@ impl core::ops::Deref for BytesMut {
         ensures r@ == self@
     { unimplemented!() }
 }
+//@trusted T2 <[u8]>::to_vec through BytesMut's Deref: a vector with the same octets (inherent method: method-call syntax resolves to it)
+impl BytesMut {
+    #[verifier::external_body]
+    pub fn to_vec(&self) -> (r: Vec<u8>) ensures r@ == self@ { unimplemented!() }
+}
